@@ -170,8 +170,11 @@ class Concretiser:
                 abs_.update(sender={"addr": "<%s>" % addr}, domchars=list(dom))
                 return self.line(abs_, text)
             if k == "sizebig":
-                abs_["declared"] = rng.choice([self.max_bytes + 1, 2 * self.max_bytes, 10 * self.max_bytes])
-                params = " SIZE=%d" % abs_["declared"]
+                # also the values at which a 32- or 64-bit parse or conversion wraps around (RFC 1870: up to 20 digits)
+                v = rng.choice([self.max_bytes + 1, 2 * self.max_bytes, 10 * self.max_bytes, self.max_bytes + 1, 2 ** 31 - 1, 2 ** 31, 2 ** 32 + 1,
+                                2 ** 63 - 1, 2 ** 63, 2 ** 64 - 1, 2 ** 64 + 1, 10 ** 20 - 1])
+                abs_["declared"] = min(v, 2 ** 31 - 1)       # TLC integers are 32 bit: the abstraction only needs "above the limit"
+                params = " SIZE=%d" % v
             elif k == "sizeok":
                 abs_["declared"] = rng.choice([1, self.max_bytes // 2, self.max_bytes - 1, self.max_bytes])
                 params = rng.choice([" SIZE=%d BODY=8BITMIME", " SIZE=%d", " BODY=7BIT SIZE=%d"]) % abs_["declared"]
